@@ -111,3 +111,37 @@ Proof.
   exists [RReg 1 0], {| e_group := grp; e_dev := 1; e_ctr := 5; e_key := (1, 5); e_payload := 100001; e_signer := 1 |}, 777.
   split; [intros _; exists 1; reflexivity|]. repeat split.
 Qed.
+
+(* ---------- a rejected envelope leaves nothing behind ---------- *)
+
+(* an envelope under a fresh CID whose box is not sealed with the key of its counter, or whose
+   signature is not the claimed device's, is rejected WITHOUT any mutation of the store *)
+Lemma rejected_leaves_no_trace s e cid own :
+  get_cid s cid = None ->
+  (forall mk, get_pre s (e_group e) (e_dev e) (e_ctr e) = Some mk ->
+              msgkey_eqb mk (e_key e) = false \/ (e_signer e =? e_dev e) = false) ->
+  open_step s e cid own = (RFail, []).
+Proof.
+  intros Hc Hbad. unfold open_step. rewrite Hc.
+  destruct (get_pre s (e_group e) (e_dev e) (e_ctr e)) as [mk|] eqn:Ep; [|reflexivity].
+  destruct (Hbad mk eq_refl) as [H|H].
+  - rewrite H. reflexivity.
+  - destruct (msgkey_eqb mk (e_key e)); cbn [negb]; [|reflexivity]. rewrite H. reflexivity.
+Qed.
+
+(* hence presenting it again, any number of times, under the same CID, is rejected again *)
+Lemma rejected_again s e cid own n :
+  get_cid s cid = None ->
+  (forall mk, get_pre s (e_group e) (e_dev e) (e_ctr e) = Some mk ->
+              msgkey_eqb mk (e_key e) = false \/ (e_signer e =? e_dev e) = false) ->
+  Nat.iter n (fun st => apply_muts st (snd (open_step st e cid own))) s = s /\
+  fst (open_step (Nat.iter n (fun st => apply_muts st (snd (open_step st e cid own))) s) e cid own) = RFail.
+Proof.
+  intros Hc Hbad.
+  assert (Hs : Nat.iter n (fun st => apply_muts st (snd (open_step st e cid own))) s = s).
+  { set (f := fun st => apply_muts st (snd (open_step st e cid own))).
+    induction n as [|n IH]; [reflexivity|].
+    change (Nat.iter (S n) f s) with (f (Nat.iter n f s)). rewrite IH. unfold f.
+    rewrite (rejected_leaves_no_trace s e cid own Hc Hbad). reflexivity. }
+  split; [exact Hs|]. rewrite Hs. rewrite (rejected_leaves_no_trace s e cid own Hc Hbad). reflexivity.
+Qed.
